@@ -4,11 +4,13 @@ import (
 	"context"
 	"fmt"
 	"math/rand"
+	"os"
 	"sync"
 	"sync/atomic"
 	"time"
 
 	pb "github.com/jamf/regatta/regattapb"
+	"github.com/lni/dragonboat/v4"
 
 	"verifharness/internal/cluster"
 	"verifharness/internal/ev"
@@ -107,7 +109,8 @@ func (j *liveJudge) step(o liveObs) (fs []liveFinding, changed bool) {
 type witnessLive struct {
 	Layer    int       `json:"layer"`
 	CaseSeed int64     `json:"case_seed"`
-	Transfer int       `json:"transfers"`
+	Transfer int       `json:"transfers_per_episode"`
+	Episodes int       `json:"episodes"`
 	At       liveObs   `json:"at"`
 	Prev     liveObs   `json:"previous"`
 	History  []liveObs `json:"history"` // every CHANGE seen by every observer, in monitor order
@@ -117,6 +120,7 @@ type liveMon struct {
 	r    *ev.Run
 	seed int64
 	k    int
+	eps  int
 
 	mu       sync.Mutex
 	j        *liveJudge
@@ -159,13 +163,20 @@ func (m *liveMon) feed(o liveObs) {
 			continue
 		}
 		m.reported[f.Sig] = true
-		m.r.Violation(f.Sig, f.What, witnessLive{Layer: 2, CaseSeed: m.seed, Transfer: m.k, At: f.At, Prev: f.Prev, History: append([]liveObs{}, m.hist...)})
+		m.r.Violation(f.Sig, f.What, witnessLive{Layer: 2, CaseSeed: m.seed, Transfer: m.k, Episodes: m.eps, At: f.At, Prev: f.Prev, History: append([]liveObs{}, m.hist...)})
 	}
 }
 
 const metaShard = 1000
 
-func runLive(r *ev.Run, seed int64, transfers int) {
+// convergenceBound is the watchdog of one settle phase (convergence normally takes a few ms).
+const convergenceBound = 8 * time.Second
+
+// healWait (C19_HEAL_WAIT, diagnostic only): how long to keep watching a view that did not
+// converge within the bound.
+var healWait = func() time.Duration { d, _ := time.ParseDuration(os.Getenv("C19_HEAL_WAIT")); return d }()
+
+func runLive(r *ev.Run, seed int64, episodes, transfers int) {
 	rg := rand.New(rand.NewSource(seed))
 	o := cluster.Opts{Nodes: 3, RTT: 5, ElectionRTT: 10}
 	if raceOn {
@@ -183,7 +194,7 @@ func runLive(r *ev.Run, seed int64, transfers int) {
 		return
 	}
 	shard := t.ClusterID
-	m := &liveMon{r: r, seed: seed, k: transfers, j: newLiveJudge(), reported: map[string]bool{}}
+	m := &liveMon{r: r, seed: seed, k: transfers, eps: episodes, j: newLiveJudge(), reported: map[string]bool{}}
 
 	var stop atomic.Bool
 	var wg sync.WaitGroup
@@ -277,87 +288,121 @@ func runLive(r *ev.Run, seed int64, transfers int) {
 		}
 		return
 	}
-	done, notDone := 0, 0
-	for k := 0; k < transfers; k++ {
-		s := shard
-		if k%4 == 3 {
-			s = metaShard
-		}
-		var leader uint64
-		for dl := time.Now().Add(10 * time.Second); time.Now().Before(dl); time.Sleep(5 * time.Millisecond) {
-			if l, _, ok := raft(s); ok {
-				leader = l
-				break
+	// awaitConvergence: every node's headers name Raft's current (term, leader) of the table
+	// shard. A time-out here is not a verdict (watchdog).
+	awaitConvergence := func(bound time.Duration, tag string) (bool, string) {
+		var lastState string
+		for dl := time.Now().Add(bound); time.Now().Before(dl); time.Sleep(5 * time.Millisecond) {
+			l, tm, ok := raft(shard)
+			if !ok {
+				lastState = "raft nodes do not agree on a leader yet"
+				continue
+			}
+			all := true
+			lastState = fmt.Sprintf("raft: leader %d term %d;", l, tm)
+			for _, n := range c.Nodes {
+				ctx, cancel := context.WithTimeout(context.Background(), 2*time.Second)
+				resp, err := n.Engine.Range(ctx, &pb.RangeRequest{Table: []byte("t"), Key: []byte("k0")})
+				cancel()
+				if err != nil {
+					all = false
+					lastState += fmt.Sprintf(" node %d: %v;", n.ID, err)
+					continue
+				}
+				hdr(fmt.Sprintf("%s-n%d", tag, n.ID), "range", n.ID, resp.Header)
+				lastState += fmt.Sprintf(" node %d header: leader %d term %d;", n.ID, resp.Header.RaftLeaderId, resp.Header.RaftTerm)
+				if resp.Header.RaftLeaderId != l || resp.Header.RaftTerm != tm {
+					all = false
+				}
+			}
+			if !all {
+				continue
+			}
+			if l2, tm2, ok2 := raft(shard); ok2 && l2 == l && tm2 == tm {
+				return true, lastState
 			}
 		}
-		if leader == 0 {
-			notDone++
-			continue
-		}
-		target := 1 + (leader+uint64(rg.Intn(2)))%3
-		from := c.Nodes[leader-1]
-		if rg.Intn(4) == 0 { // ask a follower: dragonboat forwards the request to the leader
-			from = c.Nodes[target-1]
-		}
-		if err := from.Engine.NodeHost.RequestLeaderTransfer(s, target); err != nil {
-			notDone++
-			continue
-		}
-		r.Count("live_transfers_requested", 1)
-		if rg.Intn(5) == 0 {
-			continue // do not wait: the next transfer hits a shard in transition
-		}
-		reached := false
-		for dl := time.Now().Add(5 * time.Second); time.Now().Before(dl); time.Sleep(2 * time.Millisecond) {
-			if l, _, ok := raft(s); ok && l == target {
-				reached = true
-				break
+		// what the node's own NodeHost would tell the view if it were asked now
+		for _, n := range c.Nodes {
+			if nhi := n.Engine.NodeHost.GetNodeHostInfo(dragonboat.DefaultNodeHostInfoOption); nhi != nil {
+				for _, si := range nhi.ShardInfoList {
+					if si.ShardID == shard {
+						lastState += fmt.Sprintf(" node %d NodeHostInfo: leader %d term %d;", n.ID, si.LeaderID, si.Term)
+					}
+				}
 			}
 		}
-		if reached {
-			done++
-		} else {
-			notDone++
+		return false, lastState
+	}
+
+	done, notDone, converged, stale := 0, 0, 0, 0
+	var lastState string
+	for ep := 0; ep < episodes; ep++ {
+		for k := 0; k < transfers; k++ {
+			s := shard
+			if k%4 == 3 && k != transfers-1 {
+				s = metaShard
+			}
+			var leader uint64
+			for dl := time.Now().Add(10 * time.Second); time.Now().Before(dl); time.Sleep(5 * time.Millisecond) {
+				if l, _, ok := raft(s); ok {
+					leader = l
+					break
+				}
+			}
+			if leader == 0 {
+				notDone++
+				continue
+			}
+			target := 1 + (leader+uint64(rg.Intn(2)))%3
+			from := c.Nodes[leader-1]
+			if rg.Intn(4) == 0 { // ask a follower: dragonboat forwards the request to the leader
+				from = c.Nodes[target-1]
+			}
+			if err := from.Engine.NodeHost.RequestLeaderTransfer(s, target); err != nil {
+				notDone++
+				continue
+			}
+			r.Count("live_transfers_requested", 1)
+			if rg.Intn(5) == 0 {
+				continue // do not wait: the next transfer hits a shard in transition
+			}
+			reached := false
+			for dl := time.Now().Add(5 * time.Second); time.Now().Before(dl); time.Sleep(2 * time.Millisecond) {
+				if l, _, ok := raft(s); ok && l == target {
+					reached = true
+					break
+				}
+			}
+			if reached {
+				done++
+			} else {
+				notDone++
+			}
+			if os.Getenv("C19_DEBUG") != "" {
+				l, tm, ok := raft(s)
+				fmt.Printf("debug: ep %d transfer %d shard %d leader %d -> target %d via node %d: reached=%v now leader %d term %d agreed=%v\n", ep, k, s, leader, target, from.ID, reached, l, tm, ok)
+			}
+			time.Sleep(time.Duration(rg.Intn(100)) * time.Millisecond)
 		}
-		time.Sleep(time.Duration(rg.Intn(150)) * time.Millisecond)
+		ok, st := awaitConvergence(convergenceBound, fmt.Sprintf("settle%d", ep))
+		lastState = st
+		if ok {
+			converged++
+			continue
+		}
+		stale++
+		r.Inconclusive(fmt.Sprintf("live (seed %d, episode %d): headers did not reach Raft's (term, leader) within %v after the last transfer: %s", seed, ep, convergenceBound, st))
+		if healWait > 0 {
+			t0 := time.Now()
+			ok, st := awaitConvergence(healWait, fmt.Sprintf("heal%d", ep))
+			r.Note(fmt.Sprintf("live diag: after further %v: converged=%v %s", time.Since(t0).Round(time.Millisecond), ok, st))
+		}
 	}
 	r.Count("live_transfers_completed", int64(done))
 	r.Count("live_transfers_not_confirmed", int64(notDone))
-
-	// convergence: every node's headers name Raft's current (term, leader). A time-out here is
-	// not a verdict (watchdog).
-	converged := false
-	var lastState string
-	for dl := time.Now().Add(30 * time.Second); time.Now().Before(dl) && !converged; time.Sleep(10 * time.Millisecond) {
-		l, tm, ok := raft(shard)
-		if !ok {
-			lastState = "raft nodes do not agree on a leader yet"
-			continue
-		}
-		all := true
-		lastState = fmt.Sprintf("raft: leader %d term %d;", l, tm)
-		for _, n := range c.Nodes {
-			ctx, cancel := context.WithTimeout(context.Background(), 2*time.Second)
-			resp, err := n.Engine.Range(ctx, &pb.RangeRequest{Table: []byte("t"), Key: []byte("k0")})
-			cancel()
-			if err != nil {
-				all = false
-				lastState += fmt.Sprintf(" node %d: %v;", n.ID, err)
-				continue
-			}
-			hdr(fmt.Sprintf("final-n%d", n.ID), "range", n.ID, resp.Header)
-			lastState += fmt.Sprintf(" node %d header: leader %d term %d;", n.ID, resp.Header.RaftLeaderId, resp.Header.RaftTerm)
-			if resp.Header.RaftLeaderId != l || resp.Header.RaftTerm != tm {
-				all = false
-			}
-		}
-		if !all {
-			continue
-		}
-		if l2, tm2, ok2 := raft(shard); ok2 && l2 == l && tm2 == tm {
-			converged = true
-		}
-	}
+	r.Count("live_episodes_converged", int64(converged))
+	r.Count("live_episodes_not_converged_within_bound", int64(stale))
 	stopAll()
 	m.mu.Lock()
 	headers, views, changes, raftBad := m.headers, m.views, m.changes, m.raftBad
@@ -378,11 +423,7 @@ func runLive(r *ev.Run, seed int64, transfers int) {
 		r.Inconclusive("live: dragonboat itself reported two leaders for one term")
 		return
 	}
-	if !converged {
-		r.Inconclusive("live: headers did not reach Raft's (term, leader) within 30 s after the last transfer: " + lastState)
-		return
-	}
-	r.Count("live_runs_converged", 1)
+	r.Count("live_runs", 1)
 	r.Eval(1)
 	var tail []liveObs
 	for _, h := range hist {
@@ -393,7 +434,7 @@ func runLive(r *ev.Run, seed int64, transfers int) {
 	if len(tail) > 12 {
 		tail = tail[:12]
 	}
-	r.Sample(map[string]any{"layer": 2, "case_seed": seed, "transfers_completed": done, "headers_observed": headers, "view_reads": views,
+	r.Sample(map[string]any{"layer": 2, "case_seed": seed, "episodes": episodes, "episodes_converged": converged, "transfers_completed": done, "headers_observed": headers, "view_reads": views,
 		"distinct_terms_with_leader_in_headers": len(terms), "final": lastState, "node1_header_changes_first12": tail})
 }
 
@@ -413,7 +454,7 @@ func replayLive(r *ev.Run, w witnessLive) {
 	}
 	fmt.Printf("replay: recorded history of %d observations re-judged: %d finding(s)\n", len(w.History), n)
 	for i := 0; i < 3 && r.Violations() == n; i++ {
-		runLive(r, w.CaseSeed, w.Transfer)
+		runLive(r, w.CaseSeed, w.Episodes, w.Transfer)
 	}
 	fmt.Printf("replay: live re-run reproduced: %v\n", r.Violations() > n)
 }
